@@ -7,7 +7,7 @@ def families(tier):
     F = cc.fam
     fams = [
         F("external", "append", "append", fail=0, crash=1),
-        F("external", "append", "append", fail=0, lost=1, crash=0),
+        F("external", "append", "append", fail=0, lost=1, crash=0, r3=99),
         F("external", "append", "none", fail=1, crash=1),
         # double fault (lost response of the put + failed EXT.get): the residual known finding
         F("external", "append", "none", r3=99, fail=1, lost=1, crash=0),
@@ -28,6 +28,6 @@ def families(tier):
 
 
 def run(prop, tier, replay):
-    return cc.run_check(prop, tier, replay, families(tier), cap_quick=160,
+    return cc.run_check(prop, tier, replay, families(tier), cap_quick=110,
                         expect_pcs=("o_ext", "o_headfinal", "o_headstaging", "f_copy", "f_flip", "f_del", "f_headfinal",
                                     "c_stage", "c_ext", "c_extget", "c_headfin", "c_delst", "v_ext", "crash"))
